@@ -152,7 +152,9 @@ class PathBM:
 
     def wc(self, t):
         from pyvc.jets import scalar_poly
-        key = repr(scalar_poly(t))
+        import hashlib
+        p = scalar_poly(t)
+        key = repr(p) if len(p.t) <= 3 else hashlib.md5(repr(p.key()).encode()).hexdigest()[:12]
         a = np.empty(self.shape, dtype=object)
         for idx in np.ndindex(*self.shape):
             a[idx] = Poly.var('Wc[' + key + ']' + ''.join(f'_{i}' for i in idx))
